@@ -248,18 +248,71 @@ def _vec_elems(e):
     return []
 
 
+SUPPORT = {}     # {function path in humphrey_json: {"member": param index of the key | None, "arity": param index of the length | None}}
+
+
+def support_helpers(prog):
+    """Runtime support functions of humphrey_json that generated code may call instead of spelling the lookup out: a function whose body is
+    `param_a.get(param_i)` (+ conversions) reads the member named by its argument i; one that compares a length with `param_j` checks the
+    arity given as argument j.  Summarised from the helper's own HIR in the analysed tree, not from its name."""
+    SUPPORT.clear()
+    for path, h in prog.hir.items():
+        if not path.startswith("humphrey_json::") or "{closure" in path:
+            continue
+        params = [p_.get("name") for p_ in h.get("params", []) if p_.get("p") == "Bind"]
+        if len(params) != len(h.get("params", [])) or len(params) < 2:
+            continue
+        member = arity = None
+        gets = _find(h["body"], lambda n: n.get("e") == "MethodCall" and n.get("name") == "get")
+        if len(gets) == 1 and gets[0]["args"]:
+            a = hir_strip(gets[0]["args"][0])
+            r = hir_strip(gets[0]["recv"])
+            if a.get("e") == "Path" and a.get("res") == "Local" and a.get("name") in params and r.get("e") == "Path" and r.get("name") in params:
+                member = params.index(a["name"])
+        for bn in _find(h["body"], lambda n: n.get("e") == "Binary" and n.get("op") in ("Ne", "Eq")):
+            for side in (hir_strip(bn["l"]), hir_strip(bn["r"])) if "l" in bn else ():
+                if side.get("e") == "Path" and side.get("res") == "Local" and side.get("name") in params and "usize" in str(h.get("sig", "usize")):
+                    arity = params.index(side["name"])
+        if member is not None or arity is not None:
+            SUPPORT[path] = {"member": member, "arity": arity}
+    return SUPPORT
+
+
+def _support_call(n, what):
+    """literal argument of a call of a support helper in the role `what` ('member' / 'arity'), else None"""
+    if n.get("e") != "Call":
+        return None
+    f = hir_strip(n["f"])
+    path = f.get("path") if f.get("e") == "Path" else None
+    sup = SUPPORT.get(path) or SUPPORT.get((path or "").replace("::macros::", "::macros::"))
+    if not sup or sup.get(what) is None or sup[what] >= len(n.get("args", [])):
+        return None
+    a = hir_strip(n["args"][sup[what]])
+    return a.get("v") if a.get("e") == "Lit" else None
+
+
+def _member_reads(x):
+    """literal keys / indices read in expression x, in order: `.get(<lit>)` or a support helper called with the literal"""
+    out = []
+    for n in hir_walk(x):
+        if n.get("e") == "MethodCall" and n.get("name") == "get" and n.get("args"):
+            a = hir_strip(n["args"][0])
+            if a.get("e") == "Lit":
+                out.append(a.get("v"))
+        else:
+            v = _support_call(n, "member")
+            if v is not None:
+                out.append(v)
+    return out
+
+
 def keys_read(fn_hir):
     """from_json of a named struct: [(field, key)] in struct-literal order."""
     out = []
     for s in _find(fn_hir["body"], lambda n: n.get("e") == "Struct"):
         for f in s["fields"]:
-            gets = _find(f["x"], lambda n: n.get("e") == "MethodCall" and n.get("name") == "get")
-            key = None
-            for g in gets:
-                a = hir_strip(g["args"][0]) if g["args"] else {}
-                if a.get("e") == "Lit":
-                    key = a.get("v")
-            out.append((f["name"], key))
+            reads = _member_reads(f["x"])
+            out.append((f["name"], reads[-1] if reads else None))
         break
     return out
 
@@ -344,12 +397,9 @@ def run(chk):
             n = len(t["fields"])
             lits = [hir_value(x) for x in _find(hf["body"], lambda y: y.get("e") == "Binary" and y.get("op") in ("Ne", "Eq"))]
             ar = [v for v in lits if v[0] == "bin" and (v[3] == ("lit", n) or v[2] == ("lit", n))]
+            ar = ar or [y for y in hir_walk(hf["body"]) if _support_call(y, "arity") == n]
             chk.ob("R2.tuple", f"corpus::{name}", f"{site}: arity test compares with the field count {n}", bool(ar), f"comparisons {lits}")
-            idx = []
-            for g in _find(hf["body"], lambda y: y.get("e") == "MethodCall" and y.get("name") == "get"):
-                a = hir_strip(g["args"][0]) if g["args"] else {}
-                if a.get("e") == "Lit":
-                    idx.append(a.get("v"))
+            idx = _member_reads(hf["body"])
             chk.ob("R2.tuple", f"corpus::{name}", f"{site}: from_json reads indices 0..{n} in order", idx == list(range(n)), f"reads {idx}")
             tree = value_tree(ht["body"])
             wr = [int(nm) for nm in [y.get("name") for y in hir_walk(ht["body"]) if y.get("e") == "Field"] if str(nm).isdigit()]
